@@ -36,24 +36,97 @@ def feasible_blocks(ft, assume):
     r = _feas_cache.get(key)
     if r is not None:
         return r
-    seen = {0}
-    st = [0]
-    while st:
-        b = st.pop()
-        for s in ft.cfg.succ[b]:
-            if s in seen:
+    tests, joins = _variant_tests(ft)
+    edges = set()
+    if not tests:
+        seen = {0}
+        st = [0]
+        while st:
+            b = st.pop()
+            for s in ft.cfg.succ[b]:
+                if _switch_allows(ft, b, s, assume):
+                    edges.add((b, s))
+                    if s not in seen:
+                        seen.add(s)
+                        st.append(s)
+    else:
+        # a test of the variant of a value built as a literal Ok / Err / Some / None on the way taken follows that variant
+        # only (a spliced Result-returning helper followed by `?`): walk (block, ways taken into the relevant joins)
+        from .terms import literal_variant
+        seen = {0}
+        states = set()
+        st = [(0, ())]
+        while st:
+            b, known = st.pop()
+            if (b, known) in states or len(states) > 50000:
                 continue
-            if _switch_allows(ft, b, s, assume):
+            states.add((b, known))
+            kd = dict(known)
+            succs = [s for s in ft.cfg.succ[b] if _switch_allows(ft, b, s, assume)]
+            if b in tests:
+                x, via = tests[b]
+                for _ in range(6):
+                    if x[0] == "phi" and x[1] == ft.path and x[2] in kd:
+                        x = ft.phi_operands(x).get(kd[x[2]], ("unknown",))
+                    else:
+                        break
+                v_ = literal_variant(x)
+                if v_ is not None:
+                    idx = (0 if v_ in ("Ok", "Some") else 1) if via else {"Ok": 0, "Err": 1, "None": 0, "Some": 1}[v_]
+                    tm = ft.blocks[b]["term"]
+                    hit = [bb for v, bb in tm["targets"] if int(v) == idx] or [tm["otherwise"]]
+                    succs = [s for s in succs if s in hit]
+            for s in succs:
+                edges.add((b, s))
                 seen.add(s)
-                st.append(s)
+                k2 = dict(kd)
+                if s in joins:
+                    k2[s] = b
+                st.append((s, tuple(sorted(k2.items()))))
     _feas_cache[key] = seen
+    _feas_edges[key] = edges
     return seen
+
+
+_feas_edges = {}
+_vt_cache = {}
+
+
+def _variant_tests(ft):
+    """({switch block: (phi term, via Try::branch?)}, {join blocks of those phis}) - cached per function"""
+    r = _vt_cache.get(id(ft))
+    if r is not None and r[0] is ft:
+        return r[1], r[2]
+    from .terms import _variant_test
+    tests, joins = {}, set()
+    for b in ft.cfg.reach:
+        tm = ft.blocks[b]["term"]
+        if tm["k"] == "switch":
+            vt = _variant_test(ft, ft.switch_term(b))
+            if vt is not None:
+                tests[b] = vt
+                stack, seen_ = [vt[0]], set()
+                while stack:
+                    ph = stack.pop()
+                    if ph in seen_:
+                        continue
+                    seen_.add(ph)
+                    joins.add(ph[2])
+                    for o in ft.phi_operands(ph).values():
+                        if o[0] == "phi" and o[1] == ft.path:
+                            stack.append(o)
+    _vt_cache[id(ft)] = (ft, tests, joins)
+    return tests, joins
 
 
 def edge_feasible(ft, pred, blk, assume):
     """Is control flow pred->blk compatible with `assume` (dict: stripped discr term -> int)?
     pred must be reachable along compatible switch edges and the edge itself must be compatible."""
-    return pred in feasible_blocks(ft, assume) and _switch_allows(ft, pred, blk, assume)
+    if pred not in feasible_blocks(ft, assume):
+        return False
+    key = (id(ft), tuple(sorted((repr(k), v) for k, v in assume.items())))
+    es = _feas_edges.get(key)
+    return (pred, blk) in es if es is not None else _switch_allows(ft, pred, blk, assume)
 
 
 def fold_cmp(t, assume):
